@@ -192,3 +192,15 @@ Print Assumptions dedupe_keeps_unrepeated.
 Theorem alpha_table_roundtrip : forall a, 0 <= a < 256 -> alpha_ok a = true.
 Proof. exact alpha_table_roundtrip_all. Qed.
 Print Assumptions alpha_table_roundtrip.
+
+From V Require Import gen.CssPrefixGen.
+(* prefix insertion (insertPrefixedDeclaration, which overwrites the last rule and
+   appends one) is only ever applied to the keys of cssPrefixTable (regenerated
+   from source); none of them is a property of the box / border-radius trackers
+   (DMargin* DPadding* DInset DTop DRight DBottom DLeft DBorder*Radius), so for the
+   trackers it is an "other property" step and cannot move, duplicate or blank a
+   tracked declaration *)
+Theorem prefix_table_disjoint_from_trackers :
+  forall p, In p cssPrefixedProps -> existsb (zlist_eqb p) trackedProps = false.
+Proof. exact prefix_table_disjoint_from_trackers_all. Qed.
+Print Assumptions prefix_table_disjoint_from_trackers.
